@@ -50,6 +50,11 @@ LexLess(a, b) == IF a = <<>> THEN b # <<>>
 RECURSIVE JoinPath(_)
 JoinPath(p) == IF Len(p) = 1 THEN p[1] ELSE p[1] \o <<Slash>> \o JoinPath(Tail(p))
 
+\* The checksum columns of a line: the caller hands a MAPPING chf -> value whose key order is accidental (a sequence
+\* here, chf names as code points); the text orders the columns by chf name, so it is a function of the set.
+ByChf(a, b) == LexLess(a.chf, b.chf)
+Columns(sumseq) == SortSeq(sumseq, ByChf)
+
 Line(t, e) == [type |-> t, name |-> JoinPath(e.name), size |-> e.size, sums |-> e.sums]
 ByName(a, b) == LexLess(a.name, b.name)
 \* listing : the files in the order the directory scan happens to yield them; dlist likewise for the distfiles
